@@ -3590,6 +3590,11 @@ Octagonal_Shape<T>::add_space_dimensions_and_embed(dimension_type m) {
   if (m == 0) {
     return;
   }
+  check_space_dimension_overflow(m, max_space_dimension() - space_dimension(),
+                                 "PPL::Octagonal_Shape::",
+                                 "add_space_dimensions_and_embed(m)",
+                                 "adding m new space dimensions exceeds "
+                                 "the maximum allowed space dimension");
 
   const dimension_type new_dim = space_dim + m;
   const bool was_zero_dim_univ = !marked_empty() && space_dim == 0;
@@ -3614,6 +3619,11 @@ Octagonal_Shape<T>::add_space_dimensions_and_project(dimension_type m) {
   if (m == 0) {
     return;
   }
+  check_space_dimension_overflow(m, max_space_dimension() - space_dimension(),
+                                 "PPL::Octagonal_Shape::",
+                                 "add_space_dimensions_and_project(m)",
+                                 "adding m new space dimensions exceeds "
+                                 "the maximum allowed space dimension");
 
   const dimension_type n = matrix.num_rows();
 
